@@ -236,3 +236,350 @@ package engine
 //@   use seqloop(1, rules, b)
 //@   use selectedfacts(1, sortedNames)
 //@   loop 1 invariant [C12] asgiven: forall a, c :: lo(rules) <= a && a < c && c < hi(rules) ==> src[a] < src[c]
+
+// ---------------------------------------------------------------------------
+// selected, concurrent / mix / inverse mix
+
+//@ func (*Gengine).ExecuteSelectedRulesConcurrent$1
+//@   use ruletask(wg, C05 C09 C11 C12)
+
+//@ func (*Gengine).ExecuteSelectedRulesConcurrent
+//@   props C11 C09 C12
+//@   entry nolocks
+//@   requires g != nil
+//@   requires rb != nil ==> wfEntities(rb.Kc)
+//@   ghost perm = idperm()
+//@   ghost iperm = idperm()
+//@   use selectloop(0, names)
+//@   use seqmonitor(rules, false, false)
+//@   use forkghosts()
+//@   use forkmonitor($1, rules, 0, 0, cursor == 0 && len(rules) >= 2)
+//@   oncall (*base.RuleEntity).Execute
+//@     assert [C12] single: len(rules) == 1
+//@   ensures [C12] all: cursor + nfork > 0 ==> cursor + nfork == len(rules) && ((result != nil) <==> (failed || cfailed))
+//@   ensures [C12] nothingselected: cursor + nfork == 0 ==> result != nil
+//@   ensures [C11] resultmap: rb != nil ==> !pend && fresh(g.returnResult) && dom(g.returnResult) == R
+//@   modifies frame rulerun, g.returnResult
+//@   nopanic
+//@   use forkloop(1, wg, len(rules), 0)
+//@   use selectedfacts(1, names)
+//@   loop 1 invariant inv: cursor == 0 && !failed && stage == 0 && len(rules) >= 2
+
+//@ func (*Gengine).ExecuteSelectedRulesMixModel$1
+//@   use lesscontract(C05 C12)
+
+//@ func (*Gengine).ExecuteSelectedRulesMixModel$2
+//@   use ruletask(wg, C05 C09 C11 C12)
+
+//@ func (*Gengine).ExecuteSelectedRulesMixModel
+//@   props C05 C11 C09 C12
+//@   entry nolocks
+//@   requires g != nil
+//@   requires rb != nil ==> wfEntities(rb.Kc)
+//@   ghost perm = idperm()
+//@   ghost iperm = idperm()
+//@   use selectloop(0, names)
+//@   use seqmonitor(rules, false, false)
+//@   use forkghosts()
+//@   use forkmonitor($2, rules, 1, 0, cursor == 1 && !failed && len(rules) >= 3)
+//@   ensures [C05,C12] mix: cursor > 0 ==> ((result != nil) <==> (failed || cfailed)) && (len(rules) >= 3 ==> cursor == 1 && (nfork == 0 || nfork == len(rules) - 1) && (nfork == 0 <==> failed)) && (len(rules) <= 2 ==> nfork == 0 && (!failed ==> cursor == len(rules)))
+//@   ensures [C12] nothingselected: cursor == 0 ==> result != nil && nfork == 0
+//@   ensures [C11] resultmap: rb != nil ==> !pend && fresh(g.returnResult) && dom(g.returnResult) == R
+//@   modifies frame rulerun, g.returnResult
+//@   nopanic
+//@   loop 1 invariant cur: cursor == rangeindex + 1 && 0 <= cursor && cursor <= len(rules) && len(rules) == 2 && !failed && nfork == 0 && stage == 0
+//@   loop 1 invariant res: !pend && !stopped && fresh(g.returnResult) && dom(g.returnResult) == R && g.returnResult != nil
+//@   loop 1 invariant lk: !held(g.lock)
+//@   loop 1 decreases len(rules) - rangeindex
+//@   use selectedfacts(1, names)
+//@   loop 1 invariant [C05] sorted: sortedDesc(rules)
+//@   use forkloop(2, wg, len(rules) - 1, 0)
+//@   use selectedfacts(2, names)
+//@   loop 2 invariant [C05] sorted: sortedDesc(rules)
+//@   loop 2 invariant inv: cursor == 1 && !failed && stage == 0 && len(rules) >= 3
+
+//@ func (*Gengine).ExecuteSelectedRulesInverseMixModel$1
+//@   use lesscontract(C05 C12)
+
+//@ func (*Gengine).ExecuteSelectedRulesInverseMixModel$2
+//@   use ruletask(wg, C05 C09 C11 C12)
+
+//@ func (*Gengine).ExecuteSelectedRulesInverseMixModel
+//@   props C05 C11 C09 C12
+//@   entry nolocks
+//@   requires g != nil
+//@   requires rb != nil ==> wfEntities(rb.Kc)
+//@   ghost perm = idperm()
+//@   ghost iperm = idperm()
+//@   use selectloop(0, names)
+//@   use seqmonitorx(rules, false, false, ite(len(rules) <= 2, cursor, len(rules) - 1))
+//@   use forkghosts()
+//@   use forkmonitor($2, rules, 0, 0, cursor == 0 && len(rules) > 2)
+//@   oncall (*base.RuleEntity).Execute
+//@     assert [C05] barrier: len(rules) > 2 ==> stage == 1 && nfork == len(rules) - 1 && cursor == 0 && !cfailed
+//@   ensures [C05,C12] small: 0 < len(rules) && len(rules) <= 2 ==> nfork == 0 && ((result != nil) <==> failed) && (!failed ==> cursor == len(rules))
+//@   ensures [C05,C12] invmix: len(rules) > 2 ==> nfork == len(rules) - 1 && ((result != nil) <==> (failed || cfailed)) && (cursor == 1 || cursor == 0) && (cursor == 0 <==> cfailed)
+//@   ensures [C12] nothingselected: rb != nil && len(rules) == 0 ==> result != nil && cursor == 0 && nfork == 0
+//@   ensures [C11] resultmap: rb != nil ==> !pend && fresh(g.returnResult) && dom(g.returnResult) == R
+//@   modifies frame rulerun, g.returnResult
+//@   nopanic
+//@   loop 1 invariant cur: cursor == rangeindex + 1 && 0 <= cursor && cursor <= len(rules) && len(rules) <= 2 && !failed && nfork == 0 && stage == 0
+//@   loop 1 invariant res: !pend && !stopped && fresh(g.returnResult) && dom(g.returnResult) == R && g.returnResult != nil
+//@   loop 1 invariant lk: !held(g.lock)
+//@   loop 1 decreases len(rules) - rangeindex
+//@   use selectedfacts(1, names)
+//@   loop 1 invariant [C05] sorted: sortedDesc(rules)
+//@   use forkloop(2, wg, len(rules) - 1, 0)
+//@   use selectedfacts(2, names)
+//@   loop 2 invariant [C05] sorted: sortedDesc(rules)
+//@   loop 2 invariant inv: cursor == 0 && stage == 0 && len(rules) > 2 && !stopped
+
+// ---------------------------------------------------------------------------
+// N-M models.  S is the rule list the call started with; the window is S[0 .. N+M).
+
+//@ func (*Gengine).ExecuteNSortMConcurrent$1
+//@   use ruletask(wg, C05 C09 C11)
+
+//@ func (*Gengine).ExecuteNSortMConcurrent
+//@   props C05 C11 C09
+//@   entry nolocks
+//@   requires g != nil && nSort <= 1000000000 && mConcurrent <= 1000000000
+//@   requires rb != nil ==> wfSorted(rb.Kc)
+//@   ghost S = rb.Kc.SortRules
+//@   use seqmonitor(S, false, b)
+//@   use forkghosts()
+//@   use forkmonitor($1, S, nSort, 0, cursor == nSort && (b || !failed))
+//@   ensures [C05] invalid: rb == nil || nSort <= 0 || mConcurrent <= 0 || nSort + mConcurrent > len(S) ==> result != nil && cursor == 0 && nfork == 0
+//@   ensures [C05] contall: rb != nil && nSort > 0 && mConcurrent > 0 && nSort + mConcurrent <= len(S) && b ==> cursor == nSort && nfork == mConcurrent && ((result != nil) <==> (failed || cfailed))
+//@   ensures [C05] stopfirst: rb != nil && nSort > 0 && mConcurrent > 0 && nSort + mConcurrent <= len(S) && !b ==> (failed ==> result != nil && nfork == 0) && (!failed ==> cursor == nSort && nfork == mConcurrent && ((result != nil) <==> cfailed))
+//@   ensures [C11] resultmap: rb != nil ==> !pend && fresh(g.returnResult) && dom(g.returnResult) == R
+//@   modifies frame rulerun, g.returnResult
+//@   nopanic
+//@   loop 0 invariant cur: cursor == rangeindex + 1 && 0 <= cursor && cursor <= nSort && nfork == 0 && stage == 0 && !cfailed
+//@   loop 0 invariant err: (len(eMsg) > 0 <==> failed) && (!b ==> !failed) && (isnil(eMsg) || fresh(arr(eMsg)))
+//@   loop 0 invariant res: !pend && !stopped && fresh(g.returnResult) && dom(g.returnResult) == R && g.returnResult != nil
+//@   loop 0 invariant lk: !held(g.lock)
+//@   loop 0 decreases nSort - rangeindex
+//@   use forkloop(1, wg, mConcurrent, 0)
+//@   loop 1 invariant inv: cursor == nSort && (b || !failed) && stage == 0
+
+//@ func (*Gengine).ExecuteNConcurrentMSort$1
+//@   use ruletask(wg, C05 C09 C11)
+
+//@ func (*Gengine).ExecuteNConcurrentMSort
+//@   props C05 C11 C09
+//@   entry nolocks
+//@   requires g != nil && nConcurrent <= 1000000000 && mSort <= 1000000000
+//@   requires rb != nil ==> wfSorted(rb.Kc)
+//@   ghost S = rb.Kc.SortRules
+//@   use seqmonitorx(S, false, b, nConcurrent + cursor)
+//@   use forkghosts()
+//@   use forkmonitor($1, S, 0, 0, cursor == 0)
+//@   oncall (*base.RuleEntity).Execute
+//@     assert [C05] barrier: stage == 1 && nfork == nConcurrent && (b || !cfailed) && cursor < mSort
+//@   ensures [C05] invalid: rb == nil || nConcurrent <= 0 || mSort <= 0 || nConcurrent + mSort > len(S) ==> result != nil && cursor == 0 && nfork == 0
+//@   ensures [C05] contall: rb != nil && nConcurrent > 0 && mSort > 0 && nConcurrent + mSort <= len(S) && b ==> cursor == mSort && nfork == nConcurrent && ((result != nil) <==> (failed || cfailed))
+//@   ensures [C05] stopfirst: rb != nil && nConcurrent > 0 && mSort > 0 && nConcurrent + mSort <= len(S) && !b ==> nfork == nConcurrent && (cfailed ==> result != nil && cursor == 0) && (!cfailed && failed ==> result != nil) && (!cfailed && !failed ==> cursor == mSort && result == nil)
+//@   ensures [C11] resultmap: rb != nil ==> !pend && fresh(g.returnResult) && dom(g.returnResult) == R
+//@   modifies frame rulerun, g.returnResult
+//@   nopanic
+//@   use forkloop(0, wg, nConcurrent, 0)
+//@   loop 0 invariant inv: cursor == 0 && !failed && stage == 0
+//@   loop 1 invariant cur: cursor == rangeindex + 1 && 0 <= cursor && cursor <= mSort && nfork == nConcurrent && stage == 1 && (b || !cfailed)
+//@   loop 1 invariant err: (len(eMsg) > 0 <==> (failed || cfailed)) && (!b ==> !failed) && (isnil(eMsg) || fresh(arr(eMsg)))
+//@   loop 1 invariant res: !pend && !stopped && fresh(g.returnResult) && dom(g.returnResult) == R && g.returnResult != nil
+//@   loop 1 invariant lk: !held(g.lock)
+//@   loop 1 decreases mSort - rangeindex
+
+//@ func (*Gengine).ExecuteNConcurrentMConcurrent$1
+//@   use ruletask(nwg, C05 C09 C11)
+
+//@ func (*Gengine).ExecuteNConcurrentMConcurrent$2
+//@   use ruletask(mwg, C05 C09 C11)
+
+//@ func (*Gengine).ExecuteNConcurrentMConcurrent
+//@   props C05 C11 C09
+//@   entry nolocks
+//@   requires g != nil && nConcurrent <= 1000000000 && mConcurrent <= 1000000000
+//@   requires rb != nil ==> wfSorted(rb.Kc)
+//@   ghost S = rb.Kc.SortRules
+//@   use seqmonitor(S, false, false)
+//@   use forkghosts()
+//@   ghost c1failed bool = false
+//@   use forkmonitor($1, S, 0, 0, true)
+//@   use forkmonitor($2, S, nConcurrent, 1, nfork == nConcurrent + rangeindex + 1 && (b || !c1failed))
+//@   oncall (*sync.WaitGroup).Wait
+//@     after c1failed := ite(stage == 0, cfailed, c1failed)
+//@   ensures [C05] invalid: rb == nil || nConcurrent <= 0 || mConcurrent <= 0 || nConcurrent + mConcurrent > len(S) ==> result != nil && nfork == 0
+//@   ensures [C05] contall: rb != nil && nConcurrent > 0 && mConcurrent > 0 && nConcurrent + mConcurrent <= len(S) && b ==> nfork == nConcurrent + mConcurrent && ((result != nil) <==> cfailed)
+//@   ensures [C05] stopfirst: rb != nil && nConcurrent > 0 && mConcurrent > 0 && nConcurrent + mConcurrent <= len(S) && !b ==> (c1failed ==> result != nil && nfork == nConcurrent) && (!c1failed ==> nfork == nConcurrent + mConcurrent && ((result != nil) <==> cfailed))
+//@   ensures [C05] nodirect: cursor == 0
+//@   ensures [C11] resultmap: rb != nil ==> !pend && fresh(g.returnResult) && dom(g.returnResult) == R
+//@   modifies frame rulerun, g.returnResult
+//@   nopanic
+//@   use forkloop(0, nwg, nConcurrent, 0)
+//@   loop 0 invariant inv: cursor == 0 && stage == 0
+//@   use forkloop(1, mwg, mConcurrent, nConcurrent)
+//@   loop 1 invariant inv: cursor == 0 && stage == 1 && (b || !c1failed) && (c1failed ==> cfailed)
+
+// ---------------------------------------------------------------------------
+// selected N-M models: rules = the named rules (all must exist, len(names) == N+M), stably sorted.
+
+//@ func (*Gengine).ExecuteSelectedNSortMConcurrent$1
+//@   use lesscontract(C05 C12)
+
+//@ func (*Gengine).ExecuteSelectedNSortMConcurrent$2
+//@   use ruletask(wg, C05 C09 C11 C12)
+
+//@ func (*Gengine).ExecuteSelectedNSortMConcurrent
+//@   props C05 C11 C09 C12
+//@   entry nolocks
+//@   requires g != nil && nSort <= 1000000000 && mConcurrent <= 1000000000
+//@   requires rb != nil ==> wfEntities(rb.Kc)
+//@   ghost perm = idperm()
+//@   ghost iperm = idperm()
+//@   use selectloop(0, names)
+//@   use seqmonitor(rules, false, b)
+//@   use forkghosts()
+//@   use forkmonitor($2, rules, nSort, 0, cursor == nSort && (b || !failed))
+//@   oncall (*base.RuleEntity).Execute
+//@     assert [C12] allnamed: len(rules) == len(names) && len(names) == nSort + mConcurrent
+//@   ensures [C12] ranimpliesall: cursor > 0 || nfork > 0 ==> len(rules) == len(names) && len(names) == nSort + mConcurrent && nSort > 0 && mConcurrent > 0
+//@   ensures [C12] invalid: rb == nil || nSort <= 0 || mConcurrent <= 0 || nSort + mConcurrent != len(names) ==> result != nil && cursor == 0 && nfork == 0
+//@   ensures [C05] contall: cursor > 0 && b ==> cursor == nSort && nfork == mConcurrent && ((result != nil) <==> (failed || cfailed))
+//@   ensures [C05] stopfirst: cursor > 0 && !b ==> (failed ==> result != nil && nfork == 0) && (!failed ==> cursor == nSort && nfork == mConcurrent && ((result != nil) <==> cfailed))
+//@   ensures [C11] resultmap: rb != nil ==> !pend && fresh(g.returnResult) && dom(g.returnResult) == R
+//@   modifies frame rulerun, g.returnResult
+//@   nopanic
+//@   loop 1 invariant cur: cursor == rangeindex + 1 && 0 <= cursor && cursor <= nSort && nfork == 0 && stage == 0 && !cfailed && len(rules) == len(names) && len(names) == nSort + mConcurrent && nSort > 0 && mConcurrent > 0
+//@   loop 1 invariant err: (len(eMsg) > 0 <==> failed) && (!b ==> !failed) && (isnil(eMsg) || fresh(arr(eMsg)))
+//@   loop 1 invariant res: !pend && !stopped && fresh(g.returnResult) && dom(g.returnResult) == R && g.returnResult != nil
+//@   loop 1 invariant lk: !held(g.lock)
+//@   loop 1 decreases nSort - rangeindex
+//@   use selectedfacts(1, names)
+//@   loop 1 invariant [C05] sorted: sortedDesc(rules)
+//@   use forkloop(2, wg, mConcurrent, 0)
+//@   use selectedfacts(2, names)
+//@   loop 2 invariant inv: cursor == nSort && (b || !failed) && stage == 0 && len(rules) == len(names) && len(names) == nSort + mConcurrent && nSort > 0 && mConcurrent > 0
+
+//@ func (*Gengine).ExecuteSelectedNConcurrentMSort$1
+//@   use lesscontract(C05 C12)
+
+//@ func (*Gengine).ExecuteSelectedNConcurrentMSort$2
+//@   use ruletask(wg, C05 C09 C11 C12)
+
+//@ func (*Gengine).ExecuteSelectedNConcurrentMSort
+//@   props C05 C11 C09 C12
+//@   entry nolocks
+//@   requires g != nil && nConcurrent <= 1000000000 && mSort <= 1000000000
+//@   requires rb != nil ==> wfEntities(rb.Kc)
+//@   ghost perm = idperm()
+//@   ghost iperm = idperm()
+//@   use selectloop(0, names)
+//@   use seqmonitorx(rules, false, b, nConcurrent + cursor)
+//@   use forkghosts()
+//@   use forkmonitor($2, rules, 0, 0, cursor == 0 && len(rules) == len(names) && len(names) == nConcurrent + mSort)
+//@   oncall (*base.RuleEntity).Execute
+//@     assert [C05] barrier: stage == 1 && nfork == nConcurrent && (b || !cfailed) && cursor < mSort
+//@   ensures [C12] ranimpliesall: cursor > 0 || nfork > 0 ==> len(rules) == len(names) && len(names) == nConcurrent + mSort && nConcurrent > 0 && mSort > 0
+//@   ensures [C12] invalid: rb == nil || nConcurrent <= 0 || mSort <= 0 || nConcurrent + mSort != len(names) ==> result != nil && cursor == 0 && nfork == 0
+//@   ensures [C05] contall: nfork > 0 && b ==> cursor == mSort && nfork == nConcurrent && ((result != nil) <==> (failed || cfailed))
+//@   ensures [C05] stopfirst: nfork > 0 && !b ==> nfork == nConcurrent && (cfailed ==> result != nil && cursor == 0) && (!cfailed && failed ==> result != nil) && (!cfailed && !failed ==> cursor == mSort && result == nil)
+//@   ensures [C11] resultmap: rb != nil ==> !pend && fresh(g.returnResult) && dom(g.returnResult) == R
+//@   modifies frame rulerun, g.returnResult
+//@   nopanic
+//@   use forkloop(1, wg, nConcurrent, 0)
+//@   use selectedfacts(1, names)
+//@   loop 1 invariant inv: cursor == 0 && !failed && stage == 0 && len(rules) == len(names) && len(names) == nConcurrent + mSort && nConcurrent > 0 && mSort > 0
+//@   loop 2 invariant cur: cursor == rangeindex + 1 && 0 <= cursor && cursor <= mSort && nfork == nConcurrent && stage == 1 && (b || !cfailed) && len(rules) == len(names) && len(names) == nConcurrent + mSort && nConcurrent > 0 && mSort > 0
+//@   loop 2 invariant err: (len(eMsg) > 0 <==> (failed || cfailed)) && (!b ==> !failed) && (isnil(eMsg) || fresh(arr(eMsg)))
+//@   loop 2 invariant res: !pend && !stopped && fresh(g.returnResult) && dom(g.returnResult) == R && g.returnResult != nil
+//@   loop 2 invariant lk: !held(g.lock)
+//@   loop 2 decreases mSort - rangeindex
+//@   use selectedfacts(2, names)
+//@   loop 2 invariant [C05] sorted: sortedDesc(rules)
+
+//@ func (*Gengine).ExecuteSelectedNConcurrentMConcurrent$1
+//@   use lesscontract(C05 C12)
+
+//@ func (*Gengine).ExecuteSelectedNConcurrentMConcurrent$2
+//@   use ruletask(nwg, C05 C09 C11 C12)
+
+//@ func (*Gengine).ExecuteSelectedNConcurrentMConcurrent$3
+//@   use ruletask(mwg, C05 C09 C11 C12)
+
+//@ func (*Gengine).ExecuteSelectedNConcurrentMConcurrent
+//@   props C05 C11 C09 C12
+//@   entry nolocks
+//@   requires g != nil && nConcurrent <= 1000000000 && mConcurrent <= 1000000000
+//@   requires rb != nil ==> wfEntities(rb.Kc)
+//@   ghost perm = idperm()
+//@   ghost iperm = idperm()
+//@   use selectloop(0, names)
+//@   use seqmonitor(rules, false, false)
+//@   use forkghosts()
+//@   ghost c1failed bool = false
+//@   use forkmonitor($2, rules, 0, 0, len(rules) == len(names) && len(names) == nConcurrent + mConcurrent)
+//@   use forkmonitor($3, rules, nConcurrent, 1, nfork == nConcurrent + rangeindex + 1 && (b || !c1failed))
+//@   oncall (*sync.WaitGroup).Wait
+//@     after c1failed := ite(stage == 0, cfailed, c1failed)
+//@   ensures [C12] ranimpliesall: nfork > 0 ==> len(rules) == len(names) && len(names) == nConcurrent + mConcurrent && nConcurrent > 0 && mConcurrent > 0
+//@   ensures [C12] invalid: rb == nil || nConcurrent <= 0 || mConcurrent <= 0 || nConcurrent + mConcurrent != len(names) ==> result != nil && nfork == 0
+//@   ensures [C05] contall: nfork > 0 && b ==> nfork == nConcurrent + mConcurrent && ((result != nil) <==> cfailed)
+//@   ensures [C05] stopfirst: nfork > 0 && !b ==> (c1failed ==> result != nil && nfork == nConcurrent) && (!c1failed ==> nfork == nConcurrent + mConcurrent && ((result != nil) <==> cfailed))
+//@   ensures [C05] nodirect: cursor == 0
+//@   ensures [C11] resultmap: rb != nil ==> !pend && fresh(g.returnResult) && dom(g.returnResult) == R
+//@   modifies frame rulerun, g.returnResult
+//@   nopanic
+//@   use forkloop(1, nwg, nConcurrent, 0)
+//@   use selectedfacts(1, names)
+//@   loop 1 invariant inv: cursor == 0 && stage == 0 && len(rules) == len(names) && len(names) == nConcurrent + mConcurrent && nConcurrent > 0 && mConcurrent > 0
+//@   use forkloop(2, mwg, mConcurrent, nConcurrent)
+//@   use selectedfacts(2, names)
+//@   loop 2 invariant inv: cursor == 0 && stage == 1 && (b || !c1failed) && (c1failed ==> cfailed) && len(rules) == len(names) && len(names) == nConcurrent + mConcurrent && nConcurrent > 0 && mConcurrent > 0
+
+// ---------------------------------------------------------------------------
+// DAG model
+
+//@ func (*Gengine).ExecuteDAGModel$1
+//@   use ruletask(mwg, C13 C09 C11)
+
+//@ func (*Gengine).ExecuteDAGModel
+//@   props C13 C11 C09
+//@   entry nolocks
+//@   requires g != nil
+//@   requires rb != nil ==> wfEntities(rb.Kc)
+//@   ghost KC0 = rb.Kc
+//@   ghost failed bool = false
+//@   ghost pend bool = false
+//@   ghost R = emptyset(string)
+//@   ghost njoined int = 0
+//@   ghost joinedfail bool = false
+//@   use forkghosts()
+//@   use selectloopx(1, dag[i], j, KC0.RuleEntities)
+//@   oncall go $1
+//@     assert [C13] window: lo(rules) <= rangeindex + 1 && rangeindex + 1 < hi(rules) && b_rr == at(rules, rangeindex + 1)
+//@     assert [C13] barrier: nfork - (rangeindex + 1) == njoined
+//@     assert [C13] gate: !joinedfail
+//@     assert [C11] freshmap: fresh(g.returnResult) && dom(g.returnResult) == R
+//@     after cfailed := cfailed || t_tfailed
+//@     after nfork := nfork + 1
+//@     after R := ite(t_tret, setadd(R, b_rr.RuleName), R)
+//@   oncall (*sync.WaitGroup).Wait
+//@     after njoined := nfork
+//@     after joinedfail := cfailed
+//@   ensures [C13] errpolicy: rb != nil ==> ((result != nil) <==> cfailed) && njoined == nfork
+//@   ensures [C13] norb: rb == nil ==> result != nil && nfork == 0
+//@   ensures [C11] resultmap: rb != nil ==> fresh(g.returnResult) && dom(g.returnResult) == R
+//@   modifies frame rulerun, g.returnResult
+//@   nopanic
+//@   loop 0 invariant layers: 0 <= i && i <= len(dag) && njoined == nfork && joinedfail == cfailed && !cfailed && rb.Kc == KC0
+//@   loop 0 invariant ferr: (len(eMsg) > 0 <==> cfailed) && (isnil(eMsg) || fresh(arr(eMsg)))
+//@   loop 0 invariant fres: fresh(g.returnResult) && dom(g.returnResult) == R && g.returnResult != nil
+//@   loop 0 decreases len(dag) - i
+//@   loop 1 invariant layers: 0 <= i && i < len(dag) && njoined == nfork && joinedfail == cfailed && !cfailed && rb.Kc == KC0
+//@   loop 2 invariant forks: forked(mwg) == rangeindex + 1 && added(mwg) == len(rules) && nfork == njoined + rangeindex + 1 && -1 <= rangeindex && rangeindex < len(rules) && !joinedfail
+//@   loop 2 invariant ferr: (len(eMsg) > 0 <==> cfailed) && (isnil(eMsg) || fresh(arr(eMsg)))
+//@   loop 2 invariant fres: fresh(g.returnResult) && dom(g.returnResult) == R && g.returnResult != nil
+//@   loop 2 invariant nonnil: allNonNil(rules) && 0 <= i && i < len(dag)
+//@   loop 2 decreases len(rules) - rangeindex
